@@ -243,7 +243,9 @@ def check(run, prog):
 
     def make_args(shp, vals, sample_shape, n):
         z = make_signal(prog, "BasebandSignal", n=n, nchan=sample_shape[0], extra=sample_shape[1:], dtype="complex128")
-        elems = [Num(sp.Rational(v.numerator, v.denominator) * SR * Hz / n, kind="quantity") for v in vals]
+        from .c03 import NegZero
+        elems = [Num(sp.Integer(0) * Hz, kind="quantity", isfloat=True, tag="negzero") if isinstance(v, NegZero)
+                 else Num(sp.Rational(v.numerator, v.denominator) * SR * Hz / n, kind="quantity") for v in vals]
         sh = elems[0] if not shp else NdArr(shp, elems)
         return [z, sh], {}
     run_coverage(ck, prog, fi, "R2", make_args, n_time, lambda arr: "FFTSHIFT" in str(arr.expr) or "Opq" in str(arr.expr), "freq_shift (values in bins)")
